@@ -211,7 +211,7 @@ class _NestNotUnderstood(Exception):
     pass
 
 
-def _explicit_merge_nest(fi, inp: Term, pers: Term):
+def _explicit_merge_nest(fi, inp: Term, pers: Term, fnode=None, mem_name: Optional[str] = None, loops=None):
     """Level summary (the form of mergeabs) of a memory -> inputs merge that is spelled out as a loop nest:
 
         for k1, v1 in <sim>.persistent_inputs.items():
@@ -223,16 +223,18 @@ def _explicit_merge_nest(fi, inp: Term, pers: Term):
 
     None when the function has no loop over the memory's items at statement level; _NestNotUnderstood when it has one in another shape."""
     import ast as _ast
-    if inp[0] != "var" or pers[0] != "attr":
+    if inp[0] != "var" or (pers[0] != "attr" and mem_name is None):
         return None
 
     def is_items_of(node, pred) -> bool:
         return isinstance(node, _ast.Call) and not node.args and isinstance(node.func, _ast.Attribute) and node.func.attr == "items" and pred(node.func.value)
 
     def is_pers(n) -> bool:
+        if mem_name is not None:
+            return isinstance(n, _ast.Name) and n.id == mem_name
         return isinstance(n, _ast.Attribute) and n.attr == pers[2] and isinstance(n.value, _ast.Name) and pers[1] == ("var", n.value.id)
 
-    tops = [st for st in fi.node.body if isinstance(st, _ast.For) and is_items_of(st.iter, is_pers)]
+    tops = loops if loops is not None else [st for st in (fnode or fi.node).body if isinstance(st, _ast.For) and is_items_of(st.iter, is_pers)]
     if not tops:
         return None
     if len(tops) > 1:
@@ -295,6 +297,152 @@ def _explicit_merge_nest(fi, inp: Term, pers: Term):
         if l["only_other"] == ("add", None):
             l["only_other"] = ("add", n - 1 - i)
     return levels
+
+
+def _explicit_writeback_nest(loop, inp_name: str):
+    """Level summary of a write-back that is spelled out as a loop nest over the memory:
+
+        for k1, v1 in memory.items():
+            s1 = inputs.get(k1, {})                  # or: if k1 in inputs: s1 = inputs[k1] ...
+            for k2, v2 in v1.items():
+                s2 = s1.get(k2, {})
+                for k3 in v2:                        # the memory's own keys
+                    if k3 in s2:
+                        v2[k3] = s2[k3]
+
+    Only keys that the memory has are written (the loops run over the memory), with the new value."""
+    import ast as _ast
+    levels = []
+
+    def keys_of(node, name: str) -> bool:
+        if isinstance(node, _ast.Name) and node.id == name:
+            return True
+        if isinstance(node, _ast.Call) and len(node.args) == 1 and isinstance(node.func, _ast.Name) and node.func.id in ("list", "tuple", "sorted") and not node.keywords:
+            return keys_of(node.args[0], name)
+        return isinstance(node, _ast.Call) and not node.args and isinstance(node.func, _ast.Attribute) and node.func.attr == "keys" and isinstance(node.func.value, _ast.Name) and node.func.value.id == name
+
+    def sub_lookup(st, src: str, key: str) -> Optional[str]:
+        """`s = src.get(key, {})` -> s"""
+        if isinstance(st, (_ast.Assign, _ast.AnnAssign)):
+            tgt = st.targets[0] if isinstance(st, _ast.Assign) and len(st.targets) == 1 else getattr(st, "target", None)
+            v = st.value
+            if isinstance(tgt, _ast.Name) and isinstance(v, _ast.Call) and isinstance(v.func, _ast.Attribute) and v.func.attr == "get" and isinstance(v.func.value, _ast.Name) \
+                    and v.func.value.id == src and len(v.args) == 2 and isinstance(v.args[0], _ast.Name) and v.args[0].id == key \
+                    and ((isinstance(v.args[1], _ast.Dict) and not v.args[1].keys) or (isinstance(v.args[1], _ast.Call) and _ast.unparse(v.args[1]) == "dict()")):
+                return tgt.id
+        return None
+
+    def level(lp: _ast.For, src: str, depth: int) -> None:
+        body = [st for st in lp.body if not (isinstance(st, _ast.Expr) and isinstance(st.value, _ast.Constant))]
+        if lp.orelse:
+            raise _NestNotUnderstood(f"loop at line {lp.lineno}")
+        if isinstance(lp.target, _ast.Tuple) and len(lp.target.elts) == 2 and all(isinstance(x, _ast.Name) for x in lp.target.elts):
+            k, v = (x.id for x in lp.target.elts)
+            # descend
+            if len(body) == 2 and isinstance(body[1], _ast.For):
+                sub = sub_lookup(body[0], src, k)
+                inner = body[1]
+                it = inner.iter
+                over_items = isinstance(it, _ast.Call) and not it.args and isinstance(it.func, _ast.Attribute) and it.func.attr == "items" and isinstance(it.func.value, _ast.Name) and it.func.value.id == v
+                over_src = sub is not None and (keys_of(it, sub) or (isinstance(it, _ast.Call) and not it.args and isinstance(it.func, _ast.Attribute) and it.func.attr == "items"
+                                                                     and isinstance(it.func.value, _ast.Name) and it.func.value.id == sub))
+                if over_src and any(isinstance(a, _ast.Assign) and len(a.targets) == 1 and isinstance(a.targets[0], _ast.Subscript) and isinstance(a.targets[0].value, _ast.Name)
+                                    and a.targets[0].value.id == v for a in _ast.walk(inner)):
+                    # the loop runs over the *inputs'* keys and stores into the memory: keys that the memory does not have are added
+                    levels.append({"both": "recurse", "only_other": "none"})
+                    levels.append({"both": "new", "only_other": ("add", 0)})
+                    if depth == 1:
+                        levels.append({"both": "new", "only_other": ("add", 0)})
+                    return
+                if sub is not None and (over_items or keys_of(it, v)):
+                    levels.append({"both": "recurse", "only_other": "none"})
+                    if over_items:
+                        level(inner, sub, depth + 1)
+                    else:
+                        leaf(inner, v, sub)
+                    return
+            if len(body) == 1 and isinstance(body[0], _ast.If) and not body[0].orelse and _ast.unparse(body[0].test) == f"{k} in {src}":
+                ib = body[0].body
+                if len(ib) == 2 and isinstance(ib[0], _ast.Assign) and len(ib[0].targets) == 1 and isinstance(ib[0].targets[0], _ast.Name) and _ast.unparse(ib[0].value) == f"{src}[{k}]" and isinstance(ib[1], _ast.For):
+                    sub = ib[0].targets[0].id
+                    inner = ib[1]
+                    it = inner.iter
+                    over_items = isinstance(it, _ast.Call) and not it.args and isinstance(it.func, _ast.Attribute) and it.func.attr == "items" and isinstance(it.func.value, _ast.Name) and it.func.value.id == v
+                    if over_items or keys_of(it, v):
+                        levels.append({"both": "recurse", "only_other": "none"})
+                        if over_items:
+                            level(inner, sub, depth + 1)
+                        else:
+                            leaf(inner, v, sub)
+                        return
+            # `for k, _old in vals.items(): if k in sub: vals[k] = sub[k]` cannot be told from a descent by its header: try it as a leaf
+            raise _NestNotUnderstood(f"level at line {lp.lineno}")
+        raise _NestNotUnderstood(f"loop target at line {lp.lineno}")
+
+    def leaf(lp: _ast.For, mem: str, src: str) -> None:
+        if not isinstance(lp.target, _ast.Name) or lp.orelse:
+            raise _NestNotUnderstood(f"leaf loop at line {lp.lineno}")
+        k = lp.target.id
+        body = [st for st in lp.body if not (isinstance(st, _ast.Expr) and isinstance(st.value, _ast.Constant))]
+        if len(body) == 1 and isinstance(body[0], _ast.If) and not body[0].orelse and _ast.unparse(body[0].test) == f"{k} in {src}" and len(body[0].body) == 1:
+            a = body[0].body[0]
+            if isinstance(a, _ast.Assign) and len(a.targets) == 1 and _ast.unparse(a.targets[0]) == f"{mem}[{k}]" and _ast.unparse(a.value) == f"{src}[{k}]":
+                levels.append({"both": "new", "only_other": "none"})
+                return
+        raise _NestNotUnderstood(f"leaf at line {lp.lineno}")
+
+    level(loop, inp_name, 1)
+    return levels
+
+
+def _explicit_nests(ctx: Ctx, fi, raw_s, inp: Term, pers: Term):
+    """(into level summary | None, write-back level summary | None, note | None): the loop nests over the memory that get_input_data
+    itself contains at statement level, or that a helper function introduced by a later change contains, when it is handed the inputs
+    and the memory (in either order)."""
+    import ast as _ast
+    from ..flow import is_new_helper
+    ctxs = []      # (function node, name of the memory or None for the attribute form, name of the inputs)
+    if inp[0] == "var":
+        ctxs.append((fi.node, None, inp[1]))
+    for e in raw_s.of_kind("call"):
+        if e.term[1][0] != "glob" or len(e.term[2]) < 2:
+            continue
+        hfi = ctx.prog.functions.get(e.term[1][1])
+        if hfi is None or isinstance(hfi.node, _ast.Lambda) or not is_new_helper(hfi):
+            continue
+        params = [a.arg for a in hfi.node.args.args]
+        names = {}
+        for pn, a in zip(params, e.term[2]):
+            a = T.strip(a)
+            if a == pers:
+                names["mem"] = pn
+            elif a == inp or (inp[0] == "var" and a == inp):
+                names["inp"] = pn
+        if "mem" in names and "inp" in names:
+            ctxs.append((hfi.node, names["mem"], names["inp"]))
+    into = back = note = None
+    for fnode, mem_name, inp_name in ctxs:
+        def is_mem(n, mem_name=mem_name):
+            if mem_name is not None:
+                return isinstance(n, _ast.Name) and n.id == mem_name
+            return isinstance(n, _ast.Attribute) and pers[0] == "attr" and n.attr == pers[2] and isinstance(n.value, _ast.Name) and pers[1] == ("var", n.value.id)
+        for st in fnode.body:
+            if not (isinstance(st, _ast.For) and isinstance(st.iter, _ast.Call) and not st.iter.args and isinstance(st.iter.func, _ast.Attribute) and st.iter.func.attr == "items" and is_mem(st.iter.func.value)):
+                continue
+            try:
+                lv = _explicit_merge_nest(fi, T.var(inp_name), pers, fnode=fnode, mem_name=mem_name, loops=[st])
+                if lv is not None and into is None:
+                    into = lv
+                    continue
+            except _NestNotUnderstood as ex1:
+                try:
+                    lvb = _explicit_writeback_nest(st, inp_name)
+                    if back is None:
+                        back = lvb
+                    continue
+                except _NestNotUnderstood as ex2:
+                    note = f"{ex1} / {ex2}"
+    return into, back, note
 
 
 def _get_input_data(ctx: Ctx, c: Collector) -> None:
@@ -376,7 +524,7 @@ def _get_input_data(ctx: Ctx, c: Collector) -> None:
                    and any(T.contains((a,), pers) for a in e.term[2]) and len(e.term[2]) >= 2 and not any(x.term[1][0] == "glob" and x.term[1][1] in (MERGE_ALL, MERGE_EX) and T.contains((x.term,), pers) for x in raw_s.of_kind("call"))]
     abs_into = abs_back = None
     abs_err = None
-    if other_merge and (not into or not back):
+    if other_merge:
         from .. import mergeabs
         import ast as _ast
 
@@ -403,15 +551,26 @@ def _get_input_data(ctx: Ctx, c: Collector) -> None:
                     abs_back = (e, _summ(e), T.strip(e.term[2][1]))
         except mergeabs.NotUnderstood as ex:
             abs_err = str(ex)
+        # a helper that was read as a whole supersedes what its (partly) spliced body looks like
+        if abs_into is not None:
+            into = []
+        if abs_back is not None:
+            back = []
     explicit_note = None
-    if not into and abs_into is None and not other_merge:
-        # the merge spelled out as a loop nest over the memory (`for eid, attrs in memory.items(): t = inputs.setdefault(eid, {}); ...`)
-        try:
-            lv_x = _explicit_merge_nest(fi, inp, pers)
-        except _NestNotUnderstood as ex:
-            lv_x, explicit_note = None, str(ex)
-        if lv_x is not None:
+    if (not into and abs_into is None) or (not back and abs_back is None):
+        # the merges spelled out as loop nests over the memory (`for eid, attrs in memory.items(): t = inputs.setdefault(eid, {}); ...`),
+        # in get_input_data itself or in a helper that a later change split off
+        lv_x, lv_b, explicit_note = _explicit_nests(ctx, fi, raw_s, inp, pers)
+        if lv_x is not None and not into and abs_into is None:
             abs_into = (None, lv_x, None)
+            other_merge = [e for e in other_merge if not (T.strip(e.term[2][0]) == inp or T.contains((e.term[2][:1],), inp))] if lv_b is None else []
+        if lv_b is not None and not back and abs_back is None:
+            abs_back = (None, lv_b, inp)
+            other_merge = [e for e in other_merge if T.strip(e.term[2][0]) != pers]
+        if explicit_note is not None and ((lv_x is None and not into and abs_into is None) or (lv_b is None and not back and abs_back is None)) and not other_merge:
+            pass
+        else:
+            explicit_note = explicit_note if ((lv_x is None and not into and abs_into is None and not other_merge)) else None
     if not into and abs_into is not None:
         e, lv, other = abs_into
         pr, pr13 = [], []
@@ -472,7 +631,7 @@ def _get_input_data(ctx: Ctx, c: Collector) -> None:
                     pr.append(f"on level {L} the write-back {'replaces whole sub-dicts' if l['both'] == 'new' else 'stops'} instead of descending")
                 if L == 3 and l["both"] != "new":
                     pr.append("the write-back keeps the old value instead of taking the new one")
-        if abs_into is not None and e.idx < abs_into[0].idx:
+        if abs_into is not None and e is not None and abs_into[0] is not None and e.idx < abs_into[0].idx:
             pr.append("the write-back precedes reading the memory")
         c.add("writeback", GID, "write-back only into existing keys (3 x merge_existing, new value wins)", VIOLATED if pr else DISCHARGED, "; ".join(pr) or f"level summary {lv}", loc)
     elif not back and other_merge and any(T.strip(e.term[2][0]) == pers for e in other_merge if e.term[2]):
